@@ -424,7 +424,8 @@ reg(PoolCheck(
 reg(C06Check(
     "C06", P(w={"cancel": 14, "intruder": 5, "flush": 3, "cancel_group": 2, "stop": 2, "reject": 0, "qput": 4}, inner_ops=0.3, cb=0.6, cb_gate=0.4, qwait=0.35),
     "random scenarios in which cancel(*ids) is called with 0..4 ids drawn from running / repeated / pending / unbegun / in-callback / ended / flushed / never-issued / negative ids "
-    "by conductor, intruders, workers and callbacks; non-trivial = a call mixed valid and offending ids, or a call was accepted; distinct by signature",
+    "by conductor, intruders, workers and callbacks, workers suspended in gates, sleeps or `async with` on the library's Queue; family 'session': cancel sent as a control command while a second served "
+    "pool of the same class gets the same lines; non-trivial = a call mixed valid and offending ids, or a call was accepted; distinct by signature",
     lambda s: s.get("C06.mixed", 0) > 0 or s.get("C06.accepted_calls", 0) > 0,
     6000, 120000,
     floors={"C06.mixed": 300, "C06.reject.AlreadyEnded": 300, "C06.reject.AlreadyCancelled": 20, "C06.reject.InvalidTaskID": 300, "C06.delivered_exact": 1000,
